@@ -324,6 +324,9 @@ func (x *Explorer) evalKeys(v ssa.Value, depth int) []string {
 		case token.EQL, token.NEQ, token.LSS, token.LEQ, token.GTR, token.GEQ:
 			out = append(out, x.evalKeys(v.X, depth+1)...)
 			out = append(out, x.evalKeys(v.Y, depth+1)...)
+			if fk := x.flipKey(v); fk != "" {
+				out = append(out, fk)
+			}
 		}
 	case *ssa.ChangeType:
 		out = append(out, x.evalKeys(v.X, depth+1)...)
@@ -491,6 +494,11 @@ func (x *Explorer) assumeKeys(v ssa.Value, depth int) []string {
 			}
 		}
 	}
+	if bo, ok := v.(*ssa.BinOp); ok {
+		if fk := x.flipKey(bo); fk != "" {
+			return []string{x.Canon(v), fk}
+		}
+	}
 	return []string{x.Canon(v)}
 }
 
@@ -521,6 +529,23 @@ func (x *Explorer) tracked(key string) bool {
 // allowed: may a fact with this key be stored at all (Filter mode)?
 func (x *Explorer) allowed(key string) bool {
 	return x.Filter == nil || x.keep[key] || x.Filter(key)
+}
+
+// flipKey: the key of the opposite (in)equality over the same operands, so that
+// "a != b" found false is known when "a == b" is tested later.
+func (x *Explorer) flipKey(v *ssa.BinOp) string {
+	if v.Op != token.EQL && v.Op != token.NEQ {
+		return ""
+	}
+	a, b := x.Canon(v.X), x.Canon(v.Y)
+	if b < a {
+		a, b = b, a
+	}
+	op := token.EQL
+	if v.Op == token.EQL {
+		op = token.NEQ
+	}
+	return "(" + a + " " + op.String() + " " + b + ")"
 }
 
 func (x *Explorer) tok(v ssa.Value) string { return "<" + strconv.Itoa(x.ids[v]) + ">" }
@@ -723,6 +748,11 @@ func (x *Explorer) eval(st *State, v ssa.Value, depth int) Abs {
 	if a, ok := st.facts[x.Canon(v)]; ok && a != Unknown {
 		return a
 	}
+	if bo, ok := v.(*ssa.BinOp); ok && (bo.Op == token.EQL || bo.Op == token.NEQ) {
+		if a, ok := st.facts[x.flipKey(bo)]; ok && a != Unknown {
+			return a.not()
+		}
+	}
 	switch v := v.(type) {
 	case *ssa.UnOp:
 		if v.Op == token.NOT {
@@ -863,6 +893,11 @@ func (x *Explorer) assume(st *State, v ssa.Value, want bool, depth int) {
 	}
 	if k := x.Canon(v); x.tracked(k) {
 		st.facts[k] = absOf(want)
+	}
+	if bo, ok := v.(*ssa.BinOp); ok {
+		if fk := x.flipKey(bo); fk != "" && x.tracked(fk) {
+			st.facts[fk] = absOf(!want)
+		}
 	}
 	if phi, ok := v.(*ssa.Phi); ok {
 		x.refinePhi(st, phi, absOf(want), depth)
